@@ -262,6 +262,29 @@ class C04(QProp):
             items.append((G.Bin("/", Q.Qty("3", t), Q.Qty("2", [(w, 1)])), [], "sweep-div"))
             for k in (-2, 0, 2, 3):
                 items.append((G.Bin("^", G.Paren(Q.Qty("3", t)), G.Lit(str(k))), [], "sweep-pow"))
+        # the same derived unit in BOTH operands, one of them at a higher power, next to a base
+        # unit that cancels part of its expansion (so that `reconstruct` can fold the unit back
+        # only partly, and hits an entry the other operand already put there)
+        base_word = {}
+        for w in v.plain_words:
+            if w[0] == "" and sum(abs(x) for x in w[4]) == 1 and w[5] == 1 and w[1].isascii():
+                base_word.setdefault(w[4], w)
+        one = {}
+        for w in v.plain_words:
+            if w[0] == "" and w[1].isascii() and w[1].isalpha() and sum(abs(x) for x in w[4]) >= 1:
+                one.setdefault(w[2], w)
+        reps = list(one.values())
+        for u in reps[:: 2 if tier == "quick" else 1]:
+            bases = [bw for d, bw in base_word.items() if any(a and b for a, b in zip(d, u[4]))]
+            for bw in bases[:2]:
+                if bw[2] == u[2]:
+                    continue
+                for p in ((2, 3) if tier == "quick" else (2, 3, -2, -3)):
+                    a = Q.Qty("2", [(u, 1)])
+                    b = Q.Qty("3", [(u, p), (bw, -1 if p > 0 else 1)])
+                    for op in "*/":
+                        items.append((G.Bin(op, a, b), [], "partial-cancel"))
+                        items.append((G.Bin(op, b, a), [], "partial-cancel"))
         n = 1500 if tier == "quick" else 30000
         for i in range(n):
             e = self.gen(v, rng, rng.range(1, 3))
